@@ -5,7 +5,7 @@ is_tld on the bytes after the last dot, result passed on unchanged)."""
 import re
 import unitdb, cfgpaths, tables
 from rules import shared, emailfn, eavobj
-from rules.c04 import conv_output
+from rules.c04 import conv_output, out_end
 from rules.eavobj import CONVERTERS
 from report import AnalysisBroken
 
@@ -83,7 +83,7 @@ def run(ck):
             conv = [c for c in p.calls() if c[1] in CONVERTERS]
             if not conv: why.append('TLD pipeline without a conversion'); continue
             out = conv_output(conv[-1])          # the conversion whose output is used (a retry makes a second call)
-            why += pipeline_problems(p, out, f'({out} + strlen#1)', lambda q: q.ret()[1])
+            why += pipeline_problems(p, out, out_end(p, out), lambda q: q.ret()[1])
         if n < 3: why.append(f'only {n} paths pass the tld_check gate')
         r4.instance(f'{key}:is_utf8_domain', ok=not why, wclass='pipeline', what='; '.join(sorted(set(why))))
     ck.assume('the domain ends at the string terminator, so comparing row.length = strlen + 1 bytes compares the whole last label')
